@@ -573,7 +573,7 @@ def shrink_case(mod, inp, workdir, want='prop', rounds=12):
     """Greedy shrinking: at each round evaluate all candidates (impl + Coq) and keep
     the first that still fails in the wanted way."""
     cur = inp
-    cur_out = mod.run_impl(cur)
+    cur_out = safe_impl(mod, cur)
     for r in range(rounds):
         cands = list(mod.shrink(cur))[:60]
         if not cands:
